@@ -14,7 +14,7 @@ VARIABLES tid, verdict
 \* three register files that between them take both outcomes of every conditional / repeating form
 RegFile(f, b, c) == [i \in 1..30 |-> CASE i = rF -> f [] i = rB -> b [] i = rC -> c [] i = rA -> 1 [] OTHER -> 0]
 TimingSet(c) ==
-  LET st(f, b, cc) == [r |-> [RegFile(f, b, cc) EXCEPT ![rPC] = c.pc], ov |-> c.ov, inv |-> 0, frame |-> 69888, ia |-> 32]
+  LET st(f, b, cc) == [r |-> [RegFile(f, b, cc) EXCEPT ![rPC] = c.pc], ov |-> c.ov, inv |-> 0, frame |-> 69888, ia |-> 32, tA |-> -1]
   IN { Decode(st(0, 1, 0)).t, Decode(st(255, 0, 1)).t, Decode(st(0, 2, 2)).t }
 
 SeqToSet(q) == { q[i] : i \in 1..Len(q) }
